@@ -8,9 +8,14 @@
 (*   UseRing     : arrivals go through the ring (Recv, Consume) or are        *)
 (*                 delivered in one step (Recv immediately followed by        *)
 (*                 Consume).                                                  *)
+(*   Split       : appendFinalSnapshot reads FinalIndex in one step and the   *)
+(*                 head round (and everything else) in a later one.           *)
+(*   SelfFeed    : snapshots also enter the live round without the pool (the  *)
+(*                 node's own chain: cosiHandleResponse -> AddSnapshot; or a  *)
+(*                 live round loaded from the store after a restart).         *)
 EXTENDS Pool, Json
 
-CONSTANTS Universe, H0, Peers, Fine, UseRing, MaxWritten
+CONSTANTS Universe, H0, Peers, Fine, UseRing, MaxWritten, Split, SelfFeed
 
 \* --- universes: id -> [round, kind, closes] ----------------------------------------------
 G(r, c) == [round |-> r, kind |-> "good", closes |-> c]
@@ -29,13 +34,15 @@ UD == <<G(1, {}), G(1, {}), G(1, {}), B(3, {}), B(3, {}), B(3, {}), B(3, {})>>
 SnapIds == DOMAIN Universe
 GoodIds == { s \in SnapIds : Universe[s].kind = "good" }
 
-VARIABLES S, adm, todo, hand, last
-vars == <<S, adm, todo, hand, last>>
+VARIABLES S, adm, todo, hand, last, cons
+vars == <<S, adm, todo, hand, last, cons>>
+NoCons == [fi |-> -1, p |-> 0, s |-> 0]
 
 NoOp == [op |-> "Init", p |-> 0, s |-> 0]
 Init == /\ S = InitState(Universe, H0)
         /\ adm = {} /\ todo = {} /\ hand = {}
         /\ last = [o |-> NoOp, res |-> "ok"]
+        /\ cons = NoCons
 
 Unfin(sl) == { sl.arr[j].id : j \in { x \in 1..sl.size : ~sl.arr[x].fin } }
 FirstUnfin(sl) ==
@@ -61,6 +68,7 @@ Env(o, r) ==
     /\ S' = r.S
     /\ last' = [o |-> o, res |-> r.res]
     /\ UNCHANGED <<todo, hand>>
+    /\ o.op \notin {"Read", "Write"} => UNCHANGED cons
 
 DoRecv == \E p \in Peers, s \in SnapIds :
     /\ UseRing
@@ -74,12 +82,38 @@ DoConsume ==
          /\ adm' = IF r.res \in {"new", "peer", "dup"} THEN adm \cup {Head(S.ring).s} ELSE adm
 
 \* AppendFinalSnapshot immediately followed by the consumer's turn
+\* (cosi.go:VerifyAndQueueAppendSnapshotFinalization does not offer a snapshot that is in the live round already)
+Offered(s) == SelfFeed => s \notin PRange(S.hround)
+
 DoDeliver == \E p \in Peers, s \in SnapIds :
-    /\ ~UseRing
+    /\ ~UseRing /\ ~Split /\ Offered(s)
     /\ LET r1 == Recv(S, p, s)
            r  == IF r1.res = "queued" THEN Consume(r1.S) ELSE r1 IN
          /\ Env([op |-> "Deliver", p |-> p, s |-> s], r)
          /\ adm' = IF r.res \in {"new", "peer", "dup"} THEN adm \cup {s} ELSE adm
+
+\* appendFinalSnapshot in two steps: fi := chain.FinalIndex ... start = chain.State.CacheRound.Number
+DoSplitRead == \E p \in Peers, s \in SnapIds :
+    /\ Split /\ cons.fi = -1 /\ Offered(s)
+    /\ S.head <= RoundOf(S, s)          \* AppendFinalSnapshot lets it through
+    /\ cons' = [fi |-> S.fi, p |-> p, s |-> s]
+    /\ Env([op |-> "Read", p |-> p, s |-> s], [res |-> "ok", S |-> S])
+    /\ UNCHANGED adm
+DoSplitWrite ==
+    /\ Split /\ cons.fi # -1
+    /\ LET r == AppendFinalAt(S, cons.fi, cons.p, cons.s) IN
+         /\ Env([op |-> "Write", p |-> cons.p, s |-> cons.s], r)
+         /\ adm' = IF r.res \in {"new", "peer", "dup"} THEN adm \cup {cons.s} ELSE adm
+    /\ cons' = NoCons
+
+\* a snapshot of the live round is added without passing through the pool (poll goroutine, between iterations)
+DoSelfAdd == \E s \in GoodIds :
+    /\ SelfFeed /\ S.pc = "idle"
+    /\ RoundOf(S, s) = S.head /\ Closes(S, s) = S.closed /\ s \notin PRange(S.written)
+    /\ s \notin adm /\ cons.s # s
+    /\ Env([op |-> "SelfAdd", p |-> 0, s |-> s],
+           [res |-> "ok", S |-> [S EXCEPT !.hround = Append(@, s), !.written = Append(@, s)]])
+    /\ UNCHANGED adm
 
 DoTxOne(s) ==
     /\ s \notin S.txs
@@ -105,12 +139,12 @@ DoPoll ==
        ELSE LET r == RunHist(S, todo, hand) IN
               S' = r.S /\ todo' = r.todo /\ hand' = r.hand
     /\ last' = [o |-> [op |-> "P", p |-> 0, s |-> 0], res |-> S'.pc]
-    /\ UNCHANGED adm
+    /\ UNCHANGED <<adm, cons>>
 
-Next == DoRecv \/ DoConsume \/ DoDeliver \/ DoTx \/ DoCosi \/ DoExtAdv \/ DoPoll
+Next == DoRecv \/ DoConsume \/ DoDeliver \/ DoSplitRead \/ DoSplitWrite \/ DoSelfAdd \/ DoTx \/ DoCosi \/ DoExtAdv \/ DoPoll
 
 Spec == Init /\ [][Next]_vars
-View == <<S, adm, todo, hand>>
+View == <<S, adm, todo, hand, cons>>
 
 \* fairness for the liveness statement: the poll goroutine runs, transactions arrive
 FairSpec == Spec /\ WF_vars(DoPoll) /\ \A s \in GoodIds : WF_vars(DoTxOne(s))
@@ -125,6 +159,7 @@ Inv == /\ TypeOK
        /\ SlotPure(S)
        /\ IndexOK(S)
        /\ NoRetry(S)
+       /\ ~Split => last.res # "retry"
        /\ FinFlagOK(S)
        \* every entry that was due in this iteration has been handed to the handler when the iteration ends
        /\ S.pc \in {"cache", "idle"} => todo \subseteq hand
@@ -153,6 +188,7 @@ ReachSecondPeerHandover == [][~(S.pc = "mid" /\ S.pk = 2)]_vars
 ReachAdvanceBadCert == [][~(last'.o.op = "P" /\ S'.fc = S.fc + 1 /\ S'.pc = "idle")]_vars
 ReachFork == [][~(last'.o.op = "P" /\ S'.fc = S.fc + 1 /\ S'.closed = {1})]_vars
 ReachSizeErr == [][last'.res # "sizeerr"]_vars
+ReachRetry == [][last'.res # "retry"]_vars
 ReachRingFull == [][last'.res # "full"]_vars
 ReachDropped == [][last'.res # "dropped"]_vars
 
